@@ -25,10 +25,11 @@ inductive Out (α : Type) where
   deriving Repr, DecidableEq
 
 /-- one message on a result channel -/
-structure Msg where
+structure Msg (R : Type) where
   node : String
   id : Nat          -- workload id (0 = none)
   ok : Bool
+  res : Option R    -- the resources a create success reports (`none` otherwise)
   deriving Repr, DecidableEq
 
 /-- machine state of a running operation -/
@@ -37,7 +38,7 @@ structure MS (R : Type) where
   fired : Bool := false
   cnt : List (String × String × Nat) := []
   tr : List (String × String × Bool) := []
-  msgs : List Msg := []
+  msgs : List (Msg R) := []
   /-- scratch variables shared between the steps of `doCreateWorkloads` (Go: captured locals
   `workloadResourcesMap` of the nodes whose Alloc succeeded, and `rollbackMap`) -/
   allocd : List (String × R) := []
@@ -99,7 +100,7 @@ def refuse {α} : M R α := fun _ ms => (.fail, ms)
 
 def getSt : M R (State R) := fun _ ms => (.ok ms.st, ms)
 
-def emit (m : Msg) : M R Unit := fun _ ms => (.ok (), { ms with msgs := ms.msgs ++ [m] })
+def emit (m : Msg R) : M R Unit := fun _ ms => (.ok (), { ms with msgs := ms.msgs ++ [m] })
 
 def getMS : M R (MS R) := fun _ ms => (.ok ms, ms)
 def noteAlloc (n : String) (r : R) : M R Unit := fun _ ms => (.ok (), { ms with allocd := ms.allocd ++ [(n, r)] })
@@ -132,7 +133,7 @@ def txn (cond thn : M R Unit) (rollback : Option (Bool → M R Unit)) : M R Unit
       | some rb => (.fail, (rb false flt ms2).2)
 
 /-- run `m`; if it fails also send message `msg` (Go: deferred `ch <- &Message{Error: err}`) -/
-def withFailMsg (m : M R Unit) (msg : Msg) : M R Unit := fun flt ms =>
+def withFailMsg (m : M R Unit) (msg : Msg R) : M R Unit := fun flt ms =>
   match m flt ms with
   | (.ok u, ms') => (.ok u, ms')
   | (.fail, ms') => (.fail, { ms' with msgs := ms'.msgs ++ [msg] })
